@@ -12,5 +12,47 @@ def build(run):
     timedate.verify_reconfig(run)
     timedate.verify_ts_reconfig(run)
     timedate.verify_maintask(run)
+    timedate.verify_range_endpoints(run)
     run.replayer('Cron._maintask/call:set.union/pre:at_least_one_set_is_given', lambda run_, ob, model: open('/verif/specs/replay_c07a.py').read())
     run.replayer('Cron._maintask/trace:sleeps_only_while_the_wakeup_time_is_ahead_and_never_beyond_it', lambda run_, ob, model: open('/verif/specs/replay_c07b.py').read())
+
+    # ---- lemmas -----------------------------------------------------------------------------------------------------------------------------
+    import z3
+    from specs.timedate import cyc, DAY
+    d = z3.Real('d')
+    run.lemma('clock_arithmetic/short_way_round_is_within_half_a_day', [d > -DAY, d < DAY], And(cyc(d) > -DAY / 2, cyc(d) <= DAY / 2))
+    run.lemma('clock_arithmetic/short_way_round_keeps_small_differences', [d >= -3600, d <= 3600], cyc(d) == d)
+    run.lemma('clock_arithmetic/just_after_midnight_an_alarm_in_hour_23_has_just_passed', [d > DAY - 3600, d < DAY], And(cyc(d) < 0, cyc(d) > -3600))
+    # ---- scans ------------------------------------------------------------------------------------------------------------------------------
+    import ast
+    for file, tree in scan.trees().items():
+        if not file.endswith('blocklib/cron.py'): continue
+        for n in ast.walk(tree):
+            if isinstance(n, ast.AsyncFunctionDef) and n.name == '_maintask':
+                ok = True
+                for x in ast.walk(n):
+                    if isinstance(x, ast.If) and ast.unparse(x.test) == 'self.debug':
+                        for stmt in x.body:
+                            ok &= isinstance(stmt, ast.Expr) and isinstance(stmt.value, ast.Call) and ast.unparse(stmt.value.func).startswith('self.log_')
+                run.scan('debug_branches_only_log', ok, 'every `if self.debug:` body in Cron._maintask consists of log calls only (they are executed as if debug were off)')
+    w = scan.attr_writers('_alarms')
+    run.scan('writers_of__alarms', w == ['edzed/blocklib/cron.py:Cron.__init__'], f'{w}')
+    m = scan.container_mutators('_alarms')
+    run.scan('alarm_table_mutators', m == ['edzed/blocklib/cron.py:Cron.add_block', 'edzed/blocklib/cron.py:Cron.remove_block'], f'{m}')
+    callers = scan.method_callers('recalc')
+    run.scan('recalc_callers', callers == ['edzed/blocklib/cron.py:Cron._maintask', 'edzed/blocklib/timedate.py:TimeDate._event_reconfig',
+                                           'edzed/blocklib/timedate.py:TimeSpan._event_reconfig'], f'{callers}')
+    from edzed.blocklib import timedate as TD
+    run.scan('handlers_registered', TD.TimeDate._ct_handlers.get('reconfig') is vars(TD.TimeDate).get('_event_reconfig')
+             and TD.TimeSpan._ct_handlers.get('reconfig') is vars(TD.TimeSpan).get('_event_reconfig')
+             and TD.TimeDate.init_from_value is not None and TD.TimeDate._restore_state is TD.TimeDate.init_from_value,
+             "the 'reconfig' handlers are the verified functions; _restore_state is init_from_value (which calls _event_reconfig)")
+    run.unclaim("'at every moment ... the output is True exactly when ...' as one whole-history theorem: it is the composition of the contracts here "
+                "(recalc computes the statement's predicate; every reconfiguration registers all boundaries and midnight, reloads the scheduler and "
+                "recalculates at once; the scheduler recalculates the blocks of a time within 2.5 s after it, never sleeps past it, and after "
+                "a clock problem recalculates everything), plus timing accuracy in the millisecond range, which depends on the event loop and the OS")
+    run.unclaim('the hourly wake-ups as a bound on how long a wrong output can persist after a forward jump (<= 1 h): stated, follows from the sleep '
+                'obligation and the timetable containing every full hour; DST detection message; Cron.dtnow/start/init_regular (two-line functions)')
+    run.assume('the clock reads are arbitrary (the system clock may be stepped at any time); time-of-day arithmetic over the reals')
+    run.trust('datetime (naive values, attribute ranges, ordering: C13), bisect.bisect_left and sorted by their textbook contracts, asyncio.wait_for/sleep, '
+              'interval parsing (C13: _parse3, DateTimeInterval) behind interface contracts')
